@@ -3,6 +3,7 @@ package oracle
 import (
 	"fmt"
 	"math"
+	"strconv"
 	"strings"
 )
 
@@ -119,7 +120,15 @@ func OpenData(c []Pt) []float64 {
 func Fmt(d []float64) string {
 	var sb strings.Builder
 	i := 0
-	num := func(v float64) string { return fmt.Sprintf("%.12g", v) }
+	// 12 significant digits when that is the exact value (lattice data), all digits otherwise
+	// (a vertex one ulp from a lattice point must not print like the lattice point)
+	num := func(v float64) string {
+		s := fmt.Sprintf("%.12g", v)
+		if w, err := strconv.ParseFloat(s, 64); err != nil || w != v {
+			s = strconv.FormatFloat(v, 'g', -1, 64)
+		}
+		return s
+	}
 	for i < len(d) {
 		c := d[i]
 		n := cmdLen(c)
